@@ -111,6 +111,7 @@ type blkResult struct {
 	EosWithData  int            `json:"eos_with_data"`
 	EosWitness   string         `json:"eos_witness"`
 	TimingRetry  int            `json:"timing_retries"`
+	Actions      map[string]int `json:"actions"` // environment / waiter steps really executed, by specification action
 	WakeStuck    int            `json:"wake_stuck"`
 	WakeWitness  string         `json:"wake_witness"`
 }
@@ -720,13 +721,17 @@ func (w *blkReadWorld) step(i int, s blkStep) (skipped bool, timing string) {
 			w.retAt = time.Now()
 			w.lastErr, w.lastN = err, len(b)
 			if err == nil {
+				// FIFO content: bytes are consecutive and never older than what was already consumed (a local close may have
+				// dropped bytes in between)
 				for j := range b {
-					if int(b[j]) != (w.consumed+j)%200 {
-						w.lastErr = fmt.Errorf("byte %d of the read is %d, the peer wrote %d", j, b[j], (w.consumed+j)%200)
+					if int(b[j]) != int(b[0])+j || int(b[0]) < w.consumed {
+						w.lastErr = fmt.Errorf("read returned bytes %v after %d bytes had been consumed", b, w.consumed)
 						break
 					}
 				}
-				w.consumed += len(b)
+				if len(b) > 0 {
+					w.consumed = int(b[0]) + len(b)
+				}
 				w.bs.BufferReader().ReleasePreviousRead()
 			}
 		})
@@ -881,6 +886,7 @@ func blkRunRead(job *blkJob, sc *blkSched, res *blkResult) blkRun {
 				continue
 			}
 			res.Steps++
+			res.Actions[s.A]++
 			w.syncR()
 			if wasBlocked && !strings.HasPrefix(s.A, "R") {
 				// eager reader: woken by this event, it runs on until it blocks again or returns
@@ -946,7 +952,7 @@ func TestVS_Blocking(t *testing.T) {
 		job.TickMs = 150
 	}
 	res := &blkResult{Runs: []blkRun{}, Violations: []blkViolation{}, Inconclusive: []string{}, Scenarios: []blkScenario{},
-		Returns: map[string]int{}}
+		Returns: map[string]int{}, Actions: map[string]int{}}
 	defer func() {
 		vsReset(vsOff)
 		out, _ := json.Marshal(res)
@@ -1188,6 +1194,7 @@ func blkRunFlush(job *blkJob, sc *blkSched, res *blkResult) blkRun {
 				continue
 			}
 			res.Steps++
+			res.Actions[s.A]++
 			w.syncF()
 			if w.timingBad != "" {
 				run.Timing = w.timingBad
@@ -1349,6 +1356,7 @@ func blkRunAccept(job *blkJob, sc *blkSched, res *blkResult) blkRun {
 			continue
 		}
 		res.Steps++
+		res.Actions[s.A]++
 		w.sync()
 		run.Events = append(run.Events, blkEvent{A: s.A, K: s.K, Obs: w.obs()})
 		if w.viol != nil || w.inc != "" {
@@ -1700,6 +1708,7 @@ func blkRunSend(job *blkJob, sc *blkSched, res *blkResult) blkRun {
 				continue
 			}
 			res.Steps++
+			res.Actions[s.A]++
 			w.sync()
 			if w.timingB != "" {
 				run.Timing = w.timingB
@@ -1839,16 +1848,16 @@ func (w *blkInitWorld) peerReply() error {
 	out := header(make([]byte, headerSize))
 	switch w.k {
 	case 0:
-		if _, err := readFull(p, hdr); err != nil {
+		if _, err := blkReadFull(p, hdr); err != nil {
 			return err
 		}
 		out.encode(headerSize, maxSupportProtoVersion, typeExchangeProtoVersion)
 	case 1:
-		if _, err := readFull(p, hdr); err != nil {
+		if _, err := blkReadFull(p, hdr); err != nil {
 			return err
 		}
 		body := make([]byte, header(hdr).Length()-headerSize)
-		if _, err := readFull(p, body); err != nil {
+		if _, err := blkReadFull(p, body); err != nil {
 			return err
 		}
 		out.encode(headerSize, maxSupportProtoVersion, typeAckReadyRecvFD)
@@ -1871,7 +1880,7 @@ func (w *blkInitWorld) peerReply() error {
 	return err
 }
 
-func readFull(c net.Conn, b []byte) (int, error) {
+func blkReadFull(c net.Conn, b []byte) (int, error) {
 	n := 0
 	for n < len(b) {
 		m, err := c.Read(b[n:])
@@ -2057,6 +2066,7 @@ func blkRunInit(job *blkJob, sc *blkSched, res *blkResult) blkRun {
 				continue
 			}
 			res.Steps++
+			res.Actions[s.A]++
 			w.sync()
 			if w.timingB != "" {
 				run.Timing = w.timingB
